@@ -50,7 +50,16 @@ def configs(tier, seed):
            ('steepest/backtracking/max_num_iter=2', dict(kind='steepest', max_ls=2)),
            ('stepsize/pdhg', dict(kind='stepsize-pdhg')),
            ('stepsize/douglas_rachford_pd', dict(kind='stepsize-dr')),
-           ('proxgrad/fejer', dict(kind='fejer', _settings={'merge_abs': False}))]
+           ('proxgrad/fejer', dict(kind='fejer', _settings={'merge_abs': False})),
+           ('proxgrad/fejer/lam=0.5', dict(kind='fejer', lam_relax=0.5, _settings={'merge_abs': False})),
+           ('steepest/backtracking/line-search-reused/estimate_step=True', dict(kind='steepest-reuse', max_ls=1)),
+           ('steepest/backtracking/line-search-reused/estimate_step=False', dict(kind='steepest-reuse', max_ls=0)),
+           ('cg/exact-after-dim-steps/1d', dict(kind='cg-1d')),
+           ('cg/exact-after-dim-steps/small-scales', dict(kind='cg-scales'))]
+    for solver in ('proximal_gradient', 'accelerated_proximal_gradient'):
+        for prob in ('l2l2', 'l1l2'):
+            out.append(('fixedpoint/%s/%s/niter=2/lam=0.5' % (solver, prob),
+                        dict(kind='fixed', solver=solver, prob=prob, niter=2, lam_relax=0.5)))
     if tier == 'thorough':
         out.append(('cg/exact-after-dim-steps', dict(kind='cg', _settings={'obligation_timeout_ms': 600000})))
     for solver in ('pdhg', 'pdhg-accel-primal', 'pdhg-accel-dual', 'proximal_gradient',
@@ -76,7 +85,7 @@ def _sq(v):
     return v.inner(v)
 
 
-def case(ctx, kind, random=False, solver=None, prob=None, niter=1, m=1, max_ls=None):
+def case(ctx, kind, random=False, solver=None, prob=None, niter=1, m=1, max_ls=None, lam_relax=None):
     X = odl.rn(2)
     A = odl.MatrixOperator(M22, domain=X, range=X)
     bump = 1 if ctx.canary else 0
@@ -114,6 +123,57 @@ def case(ctx, kind, random=False, solver=None, prob=None, niter=1, m=1, max_ls=N
         b = X.element([1.0, -2.0])
         S.conjugate_gradient(B, x, b, 2)
         ctx.eq('exact-after-dim-steps', B(x), flat(b) + bump)
+        return
+    if kind == 'cg-1d':
+        # in one dimension CG is exact after a single step, whatever the scale of the data
+        X1 = odl.rn(1)
+        sc = ctx.real('s', 0.125, 8)
+        B1 = odl.ScalingOperator(X1, sc)
+        x = ctx.element(X1, 'x')
+        b = ctx.element(X1, 'b')
+        S.conjugate_gradient(B1, x, b, 1)
+        ctx.eq('exact-after-dim-steps', B1(x), flat(b) + bump)
+        return
+    if kind == 'cg-scales':
+        # exactness after dimension-many steps must not depend on the scale of data, weighting or cell volume
+        # (concrete facts against numpy.linalg.solve, relative error)
+        from symnp import proxy
+        was, proxy.STATE.armed = proxy.STATE.armed, False
+        try:
+            rhs = np.array([1.0, -2.0])
+            for nm, space, scale in (('data-1e-6', odl.rn(2), 1e-6), ('data-1e6', odl.rn(2), 1e6),
+                                     ('weighting-1e-12', odl.rn(2, weighting=1e-12), 1.0),
+                                     ('weighting-1e12', odl.rn(2, weighting=1e12), 1.0),
+                                     ('cell-volume-1e-11', odl.uniform_discr(0, 2e-11, 2), 1.0),
+                                     ('unit', odl.rn(2), 1.0)):
+                Bs = odl.MatrixOperator(SPD, domain=space, range=space)
+                x = space.zero()
+                S.conjugate_gradient(Bs, x, space.element(scale * rhs), 2)
+                want = np.linalg.solve(SPD, scale * rhs)
+                err = np.linalg.norm(np.asarray(x) - want) / np.linalg.norm(want)
+                ctx.fact('cg/%s/exact-after-2-steps' % nm, err < 1e-9, 'relative error %.3g' % err)
+                xn = space.zero()
+                S.conjugate_gradient_normal(Bs, xn, space.element(scale * rhs), 2)
+                errn = np.linalg.norm(np.asarray(xn) - want) / np.linalg.norm(want)
+                ctx.fact('cgn/%s/exact-after-2-steps' % nm, errn < 1e-6, 'relative error %.3g' % errn)
+        finally:
+            proxy.STATE.armed = was
+        return
+    if kind == 'steepest-reuse':
+        # one line-search object serves two runs from different starting points (with and without step estimation)
+        b = ctx.element(X, 'b')
+        f = S.L2NormSquared(X).translated(b) * A
+        for est in (bool(max_ls),):
+            ls = S.BacktrackingLineSearch(f, tau=0.5, discount=0.25, max_num_iter=2, estimate_step=est)
+            for run in (0, 1):
+                x = ctx.element(X, 'x%d%d' % (est, run))
+                f0 = f(x)
+                try:
+                    S.steepest_descent(f, x, line_search=ls, maxiter=1, tol=0.0)
+                except ValueError:
+                    ctx.fact('line-search-exhausted-raises', True)
+                    return
+                ctx.le('objective-nonincreasing/estimate_step=%s/run%d' % (est, run), f(x), f0, slack=1e-9)
         return
     if kind == 'cg1':
         xs = ctx.element(X, 'xs')
@@ -214,7 +274,8 @@ def case(ctx, kind, random=False, solver=None, prob=None, niter=1, m=1, max_ls=N
         f = lam * S.L1Norm(X)
         x = ctx.element(X, 'x')
         d0 = _sq(x - xs)
-        S.proximal_gradient(x, f, g, gamma=0.0625, niter=1)
+        kw = {} if lam_relax is None else {'lam': lam_relax}
+        S.proximal_gradient(x, f, g, gamma=0.0625, niter=1, **kw)
         ctx.le('fejer-monotone', _sq(x - xs) + bump, d0, slack=1e-9)
         return
     if kind == 'fixed':
@@ -250,9 +311,11 @@ def case(ctx, kind, random=False, solver=None, prob=None, niter=1, m=1, max_ls=N
             h = S.ZeroFunctional(X)
             S.forward_backward_pd(x, f, [g], [A], h, tau=0.125, sigma=[0.25], niter=niter)
         elif solver == 'proximal_gradient':
-            S.proximal_gradient(x, f, g * A, gamma=0.0625, niter=niter)
+            kw = {} if lam_relax is None else {'lam': lam_relax}
+            S.proximal_gradient(x, f, g * A, gamma=0.0625, niter=niter, **kw)
         elif solver == 'accelerated_proximal_gradient':
-            S.accelerated_proximal_gradient(x, f, g * A, gamma=0.0625, niter=niter)
+            kw = {} if lam_relax is None else {'lam': lam_relax}
+            S.accelerated_proximal_gradient(x, f, g * A, gamma=0.0625, niter=niter, **kw)
         elif solver == 'admm_linearized':
             # ADMM state (z, u) is internal and starts at zero: a fixed point only for the trivial dual; use the
             # instance with y* = 0, i.e. b = A xs (and for l1l2: not applicable)
